@@ -93,13 +93,15 @@ func Shrink(vals []uint64, keep func([]uint64) bool, maxEvals int, maxDur time.D
 				}
 			}
 		}
-		// drop trailing zeros (an exhausted tape reads as zeros)
+		// drop trailing zeros: an exhausted tape reads as zeros, so for a
+		// generated scenario this changes nothing — but a literal tape's length
+		// is data, so the shorter tape is tested like any other candidate
 		n := len(cur)
 		for n > 0 && cur[n-1] == 0 {
 			n--
 		}
-		if n != len(cur) {
-			cur = cur[:n]
+		if n != len(cur) && !spent() {
+			try(append([]uint64(nil), cur[:n]...))
 		}
 		if !progress {
 			break
